@@ -745,6 +745,43 @@ func specC08(c *Case, ps []*Probe) []string {
 	return out
 }
 
+// specC11: same acceptance with and without the default field; erasure gives back the plain tree; no bare term remains.
+func specC11(c *Case, ps []*Probe) []string {
+	if c.Kind != "dfpair" || len(ps) < 2 {
+		return nil
+	}
+	a, b := ps[0].Impl["P"], ps[1].Impl["P"]
+	if outcomeKind(a) != outcomeKind(b) {
+		return []string{"the default field changes which queries are accepted: with " + outcomeKind(a) + ", without " + outcomeKind(b)}
+	}
+	return specFromProbes("")(c, ps)
+}
+
+var dfNames = []string{"df", "d f", "x'y", "dflt_1", "Ünï"}
+
+// genDfPairs (C11): token sequences and trees, each with a default field that does not occur in the query.
+func genDfPairs(rng *gen.Rng, seqLen, seqSample, trees int, emit func(Case)) {
+	idx := 0
+	for n := 1; n <= seqLen; n++ {
+		for i := 0; i < gen.Pow(n); i++ {
+			emit(Case{Gen: "G1-dfpair", Kind: "dfpair", S: gen.TokenSeq(i, n), DF: dfNames[idx%len(dfNames)], Idx: idx})
+			idx++
+		}
+	}
+	for i := 0; i < seqSample; i++ {
+		n := seqLen + 1 + rng.Intn(6)
+		parts := make([]string, n)
+		for k := range parts {
+			parts[k] = gen.Pick(rng, gen.Alphabet)
+		}
+		emit(Case{Gen: "G1-dfpair-sampled", Kind: "dfpair", S: strings.Join(parts, " "), DF: gen.Pick(rng, dfNames), Idx: i})
+	}
+	for i := 0; i < trees; i++ {
+		t := gen.RandomTree(rng, 1+rng.Intn(4))
+		emit(Case{Gen: "G2-dfpair", Kind: "dfpair", S: gen.Spell(rng, t.Print(), rng.Intn(3)), DF: gen.Pick(rng, dfNames), Idx: i})
+	}
+}
+
 var properties = map[string]*Property{}
 
 func init() {
@@ -841,6 +878,10 @@ func init() {
 	add(&Property{ID: "C08", Fields: fields("P", "PG", "PP"), Spec: specC08, Generate: func(cfg RunConfig, emit func(Case)) {
 		rng := gen.NewRng(cfg.Seed, 8)
 		genQuoted(rng, tiered(cfg, 150000, 3000000), emit)
+	}})
+	add(&Property{ID: "C11", Fields: fields("P"), Spec: specC11, Generate: func(cfg RunConfig, emit func(Case)) {
+		rng := gen.NewRng(cfg.Seed, 11)
+		genDfPairs(rng, tiered(cfg, 3, 4), tiered(cfg, 60000, 1500000), tiered(cfg, 80000, 1500000), emit)
 	}})
 	add(&Property{ID: "C13", Fields: fields("U", "V", "S", "G", "J", "R", "RP"), Spec: specC13, Generate: func(cfg RunConfig, emit func(Case)) {
 		rng := gen.NewRng(cfg.Seed, 13)
